@@ -12,16 +12,18 @@ from . import c05
 
 PROPERTY = 'C16'
 EXPLANATION = (
-    'Decided from source, mostly by interpreting the functions as the evaluator calls them with decimal arithmetic '
-    'folded: (C16.1) domain guards at the critical points of each restricted domain (outside: Excel error; inside: '
-    'none) - known finding F29; (C16.2) rounding directions on values: ROUND half away from zero, ROUNDUP away from '
-    'zero, ROUNDDOWN toward zero, INT toward minus infinity at half-way and near points on both sides of zero for '
-    '1, 0, -1 digits; _round itself on witnesses (shortest decimal form of the float, requested mode and digits, '
-    'process-wide decimal context untouched); Number.__trunc__ and EVEN tables; (C16.3) TRUNC / FLOOR / CEILING and '
-    'the ROUND family on arguments whose binary form is a hair off the decimal one give the decimal result (known '
-    'finding F30 for TRUNC, FLOOR, CEILING); (C16.4) ATAN2(x, y) hands y to the first parameter of arctan2; (C16.5) '
-    'the rounding mode is set only inside decimal.localcontext(); (C16.6) ROUND/ROUNDUP/ROUNDDOWN/INT for large '
-    'magnitudes and many digits (no Python-level exception) and POWER with negative bases and whole-valued '
+    'Decided from source, mostly by interpreting the functions as the evaluator calls them with decimal arithmetic folded: '
+    '(C16.1) each restricted function called as the evaluator calls it (registered object with its private decorators; '
+    'numpy modelled with IEEE results) at the critical points of its domain: outside gives an Excel error value - not NaN, '
+    'infinity or a Python exception - inside is accepted; MOD sign table and zero divisor, POWER overflow / 0^negative '
+    '(known finding F29); (C16.2) rounding directions on values: ROUND half away from zero, ROUNDUP away from zero, '
+    'ROUNDDOWN toward zero, INT toward minus infinity at half-way and near points on both sides of zero for 1, 0, -1 '
+    'digits; _round itself on witnesses (shortest decimal form of the float, requested mode and digits, process-wide '
+    'decimal context untouched); truncation of numbers toward zero, TRUNC and EVEN tables through the registered wrappers; '
+    '(C16.3) TRUNC / FLOOR / CEILING and the ROUND family on arguments whose binary form is a hair off the decimal one give'
+    ' the decimal result (known finding F30 for TRUNC, FLOOR, CEILING); (C16.4) ATAN2(x, y) hands y to the first parameter '
+    'of arctan2; (C16.5) the rounding mode is set only inside decimal.localcontext(); (C16.6) ROUND/ROUNDUP/ROUNDDOWN/INT '
+    'for large magnitudes and many digits (no Python-level exception) and POWER with negative bases and whole-valued '
     'exponents however stored.')
 NOT_DECIDED = 'agreement with IEEE/decimal reference values (numeric)'
 TRUSTED = ['argument conventions of numpy.arctan2 and of the decimal rounding modes']
